@@ -230,6 +230,21 @@ def observe(spec):
             cq = (np.floor((cod + (rng.integers(-1, 2, size=cod.shape) * 0.25) / ext[:, None]) * 2.0 ** 20) + 0.5) / 2.0 ** 20
             lv["coordq"] = cq[:, :nD].T.tolist()
             lv["coordq_idx"] = np.asarray(ga.coord2index(cq)).astype(np.int64)[:, :nD].T.tolist()
+            # coordinates for coord2index(return_valid=True) of the flat views: inside, outside on all
+            # axes (diagonal set above), outside on SOME axes only, and the exact box boundaries 0.0 / 1.0
+            nmix = 24
+            imix = np.stack([rng.integers(-2, s + 2, size=nmix) for s in shape]).astype(np.float64)
+            shf = np.array([a["shift"] for a in lv["axes"]], dtype=np.float64)
+            cmix = (imix + shf[:, None] + 0.5 + rng.integers(-1, 2, size=imix.shape) * 0.25) / ext[:, None]
+            cmix = (np.floor(cmix * 2.0 ** 20) + 0.5) / 2.0 ** 20
+            centre = cq[:, nD // 2:nD // 2 + 1]
+            cb = [np.zeros((nd, 1)), np.ones((nd, 1))]
+            for k in range(nd):
+                for v in (0.0, 1.0):
+                    c1 = centre.copy()
+                    c1[k, 0] = v
+                    cb.append(c1)
+            lv["coordv"] = np.concatenate([cq[:, :nD], cmix] + cb, axis=1)
         lv["volume"] = float(np.asarray(ga.index2volume(P[:, :1])).ravel()[0])
         # flat views
         lv["flat"] = {}
@@ -259,6 +274,11 @@ def observe(spec):
                 fo["enc_prev"] = np.asarray(fa.index2flatindex(pad_cols(pin), -1))[0, :pin.shape[1]].tolist()
             if not hp:
                 fo["neighborhood"] = np.asarray(fa.neighborhood(fpp, tuple(lv["window"])))[0].reshape(fpp.shape[1], -1)[:nf].tolist()
+                cv = lv["coordv"]
+                fi, va = fa.coord2index(pad_cols(cv), return_valid=True)
+                fo["c2i_flat"] = np.asarray(fi).astype(np.int64)[0, :cv.shape[1]].tolist()
+                fo["c2i_valid"] = [bool(x) for x in np.asarray(va).reshape(-1)[:cv.shape[1]]]
+                fo["c2i_plain"] = np.asarray(fa.coord2index(pad_cols(cv))).astype(np.int64)[0, :cv.shape[1]].tolist()
             lv["flat"][ordering] = fo
         obs["levels"].append(lv)
     return obs
@@ -301,6 +321,10 @@ def checks_for(obs):
             if "neighborhood" in fo:
                 add("flat-%s-neighborhood" % ordering, l, "chk_flat_neighborhood %s %s %s %s %s %s" % (
                     g, L, S, zl(lv["window"]), zl(fo["probes"]), zll(fo["neighborhood"])))
+            if "c2i_flat" in fo:
+                add("flat-%s-coord2index-valid" % ordering, l, "chk_flat_coord2index %s %s %s %s %s %s && chk_flat_coord2index_plain %s %s %s %s %s" % (
+                    g, L, S, qll(lv["coordv"].T), zl(fo["c2i_flat"]), "[" + ";".join(C.cbool(b) for b in fo["c2i_valid"]) + "]",
+                    g, L, S, qll(lv["coordv"].T), zl(fo["c2i_plain"])))
     return out
 
 
@@ -386,6 +410,12 @@ def direct_failures(spec):
         if rt.shape != idx.shape or (rt != idx).any():
             k = int(np.argwhere((rt != idx).any(axis=0))[0][0]) if rt.shape == idx.shape else 0
             fail("coord-roundtrip", "coord2index(index2coord(i)) != i at level %d index %s" % (l, idx[:, k].tolist()), level=l, index=idx[:, k].tolist())
+        # --- product grids: asking for the validity mask does not change the index
+        if len(spec["bases"]) > 1 and not hp:
+            r = ga.coord2index(pad_cols(co), return_valid=True)
+            if not (isinstance(r, tuple) and len(r) == 2 and (np.asarray(r[0])[:, :n].astype(np.int64) == idx).all()
+                    and np.asarray(r[1]).reshape(-1)[:n].astype(bool).all()):
+                fail("coord2index-valid", "MGridAtLevel.coord2index(return_valid=True) does not return (index, all-valid) for the voxel centres of level %d" % l, level=l)
         # --- children's coordinates lie in the parent's cell (regular / open axes)
         if l < depth and not hp:
             ext = np.array([a["shape"] + 2 * a["shift"] for a in axes], dtype=float)
@@ -435,6 +465,27 @@ def direct_failures(spec):
             enc = B(fa.index2flatindex, dec)
             okr = dec.shape == (nd, size) and ((dec >= 0) & (dec < shape[:, None])).all() and (enc == f).all()
             enc2 = B(fa.index2flatindex, idx)
+            if not hp:
+                # coordinate -> flat index with validity: centres of the level's voxels are valid and map to
+                # their own flat index; centres of (virtual) voxels one or two cells outside on any axis are invalid
+                fi, va = fa.coord2index(pad_cols(co), return_valid=True)
+                fi, va = np.asarray(fi)[:, :n], np.asarray(va).reshape(-1)[:n].astype(bool)
+                if not (va.all() and (fi == enc2).all()):
+                    fail("coord2index-valid", "FlatGrid(%s).coord2index(return_valid=True): a voxel centre of level %d is reported invalid or mapped to another voxel" % (ordering, l), level=l, ordering=ordering)
+                for k in range(nd):
+                    for off in (-2, -1, int(shape[k]), int(shape[k]) + 1):
+                        out_idx = idx.copy()
+                        out_idx[k] = off
+                        co_out = np.asarray(ga.index2coord(pad_cols(out_idx)))[:, :n]
+                        _, vo = fa.coord2index(pad_cols(co_out), return_valid=True)
+                        vo = np.asarray(vo).reshape(-1)[:n].astype(bool)
+                        if vo.any():
+                            fail("coord2index-valid", "FlatGrid(%s).coord2index(return_valid=True) reports a coordinate outside the grid (axis %d, voxel index %d of %d) as valid at level %d" % (
+                                ordering, k, off, int(shape[k]), l), level=l, ordering=ordering)
+                            break
+                    else:
+                        continue
+                    break
             dec2 = B(fa.flatindex2index, enc2)
             okr = okr and (dec2 == idx).all() and np.unique(enc2).size == n
             if not okr:
